@@ -152,8 +152,10 @@ pub fn rand_string(rng: &mut Rng, max: usize) -> String {
     let mut s = String::new();
     while s.len() < n {
         match rng.below(20) {
-            0 if s.len() + 2 <= n => s.push('ü'),
-            1 if s.len() + 3 <= n => s.push('日'),
+            0 if s.len() + 2 <= n => s.push(*rng.pick(&['ü', 'ü', 'Ā', '߿'])),
+            // (code points that are multiples of 256, and the first / last of each UTF-8 length class)
+            1 if s.len() + 3 <= n => s.push(*rng.pick(&['日', '日', '一', 'ࠀ', '\u{3000}'])),
+            3 if s.len() + 4 <= n && rng.chance(1, 3) => s.push(*rng.pick(&['😀', '\u{10000}'])),
             2 if !s.is_empty() && s.len() + 1 < n => s.push('/'),
             _ => s.push((b'a' + rng.below(26) as u8) as char),
         }
